@@ -116,6 +116,22 @@ def unit_rows(builder, spec):
   return (f"rows/{builder}/{'sparse' if spec[0] else 'dense'}-{'newton' if spec[1] else 'cg'}", run)
 
 
+def goal_jtdaj_block(spec, pre, post):
+  """replay goal: every (adr, nrow) block the thread recorded for its world lies inside [0, njmax)"""
+  import numpy as np
+
+  e = spec["env"]
+  w, njmax = int(e["w"]), int(e["njmax"])
+  a0, a1 = np.asarray(pre["efc_jtdaj_nrow_out"]), np.asarray(post["efc_jtdaj_nrow_out"])
+  adr = np.asarray(post["efc_jtdaj_adr_out"])
+  bad = []
+  for jg in range(a1.shape[1]):
+    if a1[w, jg] != a0[w, jg] or adr[w, jg] != np.asarray(pre["efc_jtdaj_adr_out"])[w, jg]:
+      if not (adr[w, jg] >= 0 and a1[w, jg] >= 1 and adr[w, jg] + a1[w, jg] <= njmax):
+        bad.append((int(jg), int(adr[w, jg]), int(a1[w, jg])))
+  return (not bad), f"blocks (index, adr, nrow) recorded by the thread that leave [0, njmax={njmax}): {bad}"
+
+
 def unit_contact_init(cone, is_sparse):
   def run(ctx):
     from mujoco_warp._src import constraint, types
@@ -147,6 +163,14 @@ def unit_contact_init(cone, is_sparse):
     adr = kt.post("contact_efc_address_out", conid, dim)
     ctx.prove(sess, "post:efc_address-in-range", z3.And(adr >= -1, adr < z3.If(njmax > 0, njmax, 1)), And(kt.written("contact_efc_address_out", conid, dim), dim >= 0), names=dict(names, dim=dim),
               replay=lambda m: (True, "post-condition of _efc_contact_init violated (model only)"), desc="_efc_contact_init stores a contact row address outside [-1, njmax)")
+    if is_sparse and "efc_jtdaj_nrow_out" in kt.args:
+      # producer post-condition the sparse Newton Hessian (_JTDACJ_sparse) relies on: it walks rows adr .. adr + nrow - 1 of
+      # the per-world efc arrays without re-checking njmax, so every block must lie inside [0, njmax)
+      jg = z3.Int("jg")
+      badr, brow = kt.post("efc_jtdaj_adr_out", wid, jg), kt.post("efc_jtdaj_nrow_out", wid, jg)
+      blk_rp = lib.make_replay(ctx, kt, loc, "jtdaj-block", "goal", goal="checks.c17:goal_jtdaj_block", env={"w": wid, "njmax": njmax})
+      ctx.prove(sess, "post:jtdaj-block-inside-njmax", z3.And(badr >= 0, brow >= 1, badr + brow <= njmax), And(kt.written("efc_jtdaj_nrow_out", wid, jg), kt.written("efc_jtdaj_adr_out", wid, jg), jg >= 0, kt.inshape("efc_jtdaj_nrow_out", wid, jg)),
+                names=dict(names, jg=jg), replay=blk_rp, desc="_efc_contact_init records a Hessian block (efc.jtdaj_adr, efc.jtdaj_nrow) that reaches beyond njmax: _JTDACJ_sparse then reads efc rows out of range when njmax cuts a contact")
     ctx.notes.append(f"{n} capacity-dimension obligations")
 
   return (f"contact_init/{'elliptic' if cone else 'pyramidal'}/{'sparse' if is_sparse else 'dense'}", run)
